@@ -152,13 +152,15 @@ func (s *SchemaValidator) Validate(data interface{}) *Result {
 
 	if data == nil {
 		// early exit with minimal validation
-		result.Merge(s.validators[0].Validate(data)) // type validator
-		result.Merge(s.validators[6].Validate(data)) // common validator
-
+		typeValidator, commonValidator := s.validators[0], s.validators[6]
 		if s.Options.recycleValidators {
+			// a child redeems itself when it runs: its slot is released beforehand,
+			// so it is never redeemed a second time, even when unwinding from a panic
 			s.validators[0] = nil
 			s.validators[6] = nil
 		}
+		result.Merge(typeValidator.Validate(data))   // type validator
+		result.Merge(commonValidator.Validate(data)) // common validator
 
 		return result
 	}
@@ -223,10 +225,12 @@ func (s *SchemaValidator) Validate(data interface{}) *Result {
 			continue
 		}
 
-		result.Merge(v.Validate(d))
 		if s.Options.recycleValidators {
+			// the child redeems itself when it runs: release the slot beforehand,
+			// so it is never redeemed a second time, even when unwinding from a panic
 			s.validators[idx] = nil // prevents further (unsafe) usage
 		}
+		result.Merge(v.Validate(d))
 		result.Inc()
 	}
 	result.Inc()
